@@ -384,8 +384,61 @@ def _gen_nonreading(rng, tier):
                "truth": {"T": T, "marks": [], "fault": None, "h2": False, "nonreading": True}, "sched": {"seed": rng.randrange(1 << 30)}, "horizon": 400.0}
 
 
+def _gen_slow_write(rng, tier):
+    """A client that takes its response slowly: the write of the response (its last DATA frame, its last chunk) is held up for several
+    keep_alive_timeouts.  The request is in progress until its response has *ended*: the idle timer has no business with the connection
+    before that, and when the client takes the bytes the response is complete."""
+    for i in range(16 if tier == "quick" else 300):
+        T = rng.choice([1, 5])
+        tag = 4500000 + i
+        size = rng.choice([3000, 20000])
+        by_tag = {str(tag): [["recv_until_end"], ["respond", 200, [(b"x-tag", b"%d" % tag)], b"y" * size]]}
+        h2 = rng.random() < 0.6
+        if h2:
+            fb = FrameBuilder()
+            blob = client_preface(fb, {}) + fb.headers(1, [(b":method", b"GET"), (b":scheme", b"http"), (b":path", b"/t%d" % tag), (b":authority", b"h.example")], end_stream=True)
+            rspec = {"kind": "h2", "credit": "auto"}
+        else:
+            blob, rspec = _req(tag), None
+        case = {"family": "slow-write." + ("h2" if h2 else "h1"), "backends": ["asyncio", "trio"], "config": {"keep_alive_timeout": T},
+                "conn": {"write_buffer": rng.choice([64, 512])},
+                "apps": {"default": _app_delay(0, 0), "by_tag": by_tag},
+                "client": [["pause"], ["feed", blob], ["settle"], ["advance", rng.choice([2.5, 6]) * T], ["settle"], ["mark", "resume"], ["resume"], ["settle"]],
+                "truth": {"T": T, "marks": [], "fault": None, "h2": h2, "slow_write": True, "size": size, "tag": tag},
+                "sched": {"seed": rng.randrange(1 << 30)}, "horizon": 400.0}
+        if rspec:
+            case["reactor"] = rspec
+        yield case
+
+
+def _check_slow_write(case, obs, tally):
+    out = []
+    t = case["truth"]
+    tally.clause("busy")
+    if obs.handler == "exception":
+        return [{"clause": "busy", "sig": "C07.handler-crashed/slow-write", "detail": (obs.handler_exc or "")[-400:]}]
+    if t["h2"]:
+        s = obs.reactor.streams.get(1)
+        complete = s is not None and s.status == 200 and len(s.data) == t["size"] and s.ended == 1
+        got = None if s is None else (s.status, len(s.data), s.ended, s.rst)
+    else:
+        try:
+            resps, _ = h1.parse_responses(obs.outbytes, [("GET", "1.1")], obs.closed_at is not None)
+        except h1.Malformed as e:
+            resps = []
+        complete = bool(resps) and resps[0].complete and len(resps[0].body) == t["size"]
+        got = [(r.status, len(r.body), r.complete) for r in resps]
+    t_resume = obs.marks.get("resume", {}).get("t")
+    if not complete or (obs.closed_at is not None and t_resume is not None and obs.closed_at < t_resume - EPS):
+        out.append({"clause": "busy", "sig": "C07.closed-while-busy/%s/slow-write" % ("h2" if t["h2"] else "h1"),
+                    "detail": "the client took nothing for several keep_alive_timeouts (%s s) while its response was being written, then read on: closed_at %r "
+                              "(client resumed at %r), response as received %r (expected %d body bytes and its end)" % (t["T"], obs.closed_at, t_resume, got, t["size"])})
+    return out
+
+
 def gen(rng, tier):
     yield from _gen_nonreading(rng, tier)
+    yield from _gen_slow_write(rng, tier)
     for rep in range(2 if tier == "quick" else 10):
         for be in ("asyncio", "trio"):
             yield {"family": "real-census", "tierb": True, "backend": be, "count": 60 if tier == "quick" else 200, "tag": 660000 + rng.randrange(100000), "rep": rep}
@@ -460,6 +513,8 @@ def _check_nonreading(case, obs, tally):
 def check(case, obs, tally):
     if case["truth"].get("nonreading"):
         return _check_nonreading(case, obs, tally)
+    if case["truth"].get("slow_write"):
+        return _check_slow_write(case, obs, tally)
     out = []
     tr = case["truth"]
     T = tr["T"]
